@@ -57,13 +57,33 @@ def yee_energy(E, H_prev, H_cur, eps3, mu3, VE, VH) -> float:
 # ------------------------------------------------------------------ co-location oracle (C15)
 
 
-def pad_halo(F: np.ndarray, wrap: tuple[bool, bool, bool]) -> np.ndarray:
-    """(3,nx,ny,nz) -> (3,nx+2,ny+2,nz+2): periodic wrap on wrap axes, zero otherwise."""
+def pad_halo(F: np.ndarray, wrap: tuple[bool, bool, bool], mirror: dict | None = None, field_type: str = "E") -> np.ndarray:
+    """(3,nx,ny,nz) -> (3,nx+2,ny+2,nz+2): periodic wrap on wrap axes, zero otherwise.
+
+    mirror = {axis: -1}: the min face of `axis` is an *electric* symmetry plane through the nodes of index 0.  The halo
+    cell (index -1) then holds the mirror image of the interior, from first principles: components sampled on the plane
+    (tangential E, normal H: integer position along the axis) pair index -1 with index +1 and are odd across an electric
+    wall; components sampled half a cell off it (normal E, tangential H: position i+1/2) pair index -1 with index 0 and
+    are even.  A magnetic plane (+1) lies half a cell below the reduced domain and keeps the zero halo.
+    """
     out = F
     for a in range(3):
         pw = [(0, 0)] * 4
         pw[a + 1] = (1, 1)
         out = np.pad(out, pw, mode="wrap" if wrap[a] else "constant")
+    for a, wall in (mirror or {}).items():
+        a = int(a)
+        if wall != -1:
+            continue
+        for c in range(3):
+            on_plane = (c != a) if field_type == "E" else (c == a)
+            parity = -1.0 if on_plane else 1.0
+            src = 2 if on_plane else 1
+            tgt_i = [slice(None)] * 3
+            src_i = [slice(None)] * 3
+            tgt_i[a] = 0
+            src_i[a] = src
+            out[(c, *tgt_i)] = parity * out[(c, *src_i)]
     return out
 
 
